@@ -101,7 +101,9 @@ pub fn run_scenario(sc: &C12Scenario) -> JobsResult {
         (Some(c), _) => format!("abort:exit{c}"),
         _ => "abort:?".to_string(),
     };
-    if total <= 1 {
+    // (a long schedule is not re-run job by job — a marathon would cost hundreds of process
+    // starts per attempt of the minimiser: the death is attributed to every job of it)
+    if total <= 1 || total > 40 {
         let mut jobs = vec![];
         for (ri, r) in sc.schedule.iter().enumerate() {
             for j in &r.jobs {
